@@ -302,7 +302,7 @@ def run_case(case):
     for ci, (qb, qa, before, after) in enumerate(calls):
         if qa > qb * (1 + 1e-9) + 1e-12:
             bad("clamp-step-worsened-quality", f"optimize_clamp call {ci}: {qb} -> {qa}", call=ci)
-        if qa >= qb - 1e-13 and not np.array_equal(before, after):
+        if qa >= qb and not np.array_equal(before, after):
             bad("no-improvement-but-points-moved", f"optimize_clamp call {ci} did not improve the grid ({qb} -> {qa}) but left {int(np.sum(np.any(before != after, axis=1)))} points moved (half-applied / not rolled back)", call=ci)
     moved_ok = set(clamped)
     if follower:
@@ -330,7 +330,7 @@ def run_case(case):
     if np.max(np.linalg.norm(mv - final, axis=1)) > 1e-12:
         bad("mesh-differs-from-final-positions", f"max difference {np.max(np.linalg.norm(mv - final, axis=1)):.3g}")
     improved = q1 < q0 - 1e-9
-    rolled = sum(1 for qb, qa, b, a in calls if qa >= qb - 1e-13)
+    rolled = sum(1 for qb, qa, b, a in calls if qa >= qb)
     return {
         "violations": violations,
         "outcome": f"{'improved' if improved else 'unchanged'}:rollbacks={'some' if rolled else 'none'}",
